@@ -327,7 +327,7 @@ func init() {
 		ID:    "C03",
 		Level: "exploration",
 		Rule: "(1) every string of length <= 3 and every string containing '%' of length <= 5 (quick) / <= 6 (thorough) over {%, a, p, ., (, ), \", space, comma, é} as a parameter value: build verdict vs. hand-written evaluator (reject / accept / unspecified), accepted ones packed and evaluated by GetParam in a probe; " +
-			"(1b) every argument text of length <= 4 / <= 5 over {(, ), \", a, comma, space, ., /} inside %a(...)%, in both modes; (1d) every string of length <= 3 over {%, backslash, \", newline, NUL, an astral rune, ', `, $, @, !, U+2028} as parameter and as constructor argument; (2) every chunk sequence of length <= 3 (quick) / <= 4 (thorough) over 25 chunk kinds (literals, %%, references to every literal type, functions ok/failing, env/envInt hit/miss/default/bad, todo) as parameter and as constructor argument; (3) the doubling corollary for every string of (1). non-trivial = contains '%' or is evaluated at run time; distinct = distinct string / sequence",
+			"(1b) every argument text of length <= 4 / <= 5 over {(, ), \", a, comma, space, ., /} inside %a(...)%, in both modes; (1d) every string of length <= 3 over {%, backslash, \", newline, NUL, an astral rune, ', `, $, @, !, U+2028} as parameter and as constructor argument; (2) every chunk sequence of length <= 3 (quick) / <= 4 (thorough) over 25 chunk kinds (literals, %%, references to every literal type, functions ok/failing, env/envInt hit/miss/default/bad, todo) as parameter and as constructor argument; (3) the doubling corollary for every string of (1); (4) 36 values of the environment variable (signs, leading zeros, base prefixes, underscores, blanks, int64 limits, non-ASCII digits, %) read through env / envInt, alone, with defaults and inside patterns. non-trivial = contains '%' or is evaluated at run time; distinct = distinct string / sequence",
 		Assumptions: []string{
 			"unspecified: function-call chunks whose argument text is valid Go but not a list of string literals (identifiers would have to exist as Go symbols)",
 			"the pinned runtime's documented string cast (exporter.CastToString) is re-stated in the model for the YAML literal types",
@@ -613,6 +613,27 @@ func init() {
 					behaviourOracle(c, outs, err)
 				})
 			}
+			// (4) what the environment holds: envInt is strconv.Atoi of the variable, env is the variable verbatim
+			w.Case("environment-values", func(c *C) {
+				vals := []string{"0", "-0", "+5", "7", "010", "0080", "0x1F", "0X1f", "0b11", "0o17", "1_000", " 5", "5 ", "5\n", "9223372036854775807", "9223372036854775808", "-9223372036854775808",
+					"1e3", "1.0", "", "٣", "５", "--5", "+-5", "0x", "_1", "1_", "nil", "true", "%", "%%", "%p%", `"5"`, "'5'", "5,6", "💯"}
+				env := map[string]string{}
+				cfg := &Cfg{Meta: stdMeta(), Params: []Param{{"p", "referenced"}}}
+				var ops []ProbeOp
+				for i, v := range vals {
+					k := fmt.Sprintf("C03_V%d", i)
+					env[k] = v
+					cfg.Params = append(cfg.Params,
+						Param{fmt.Sprintf("i%d", i), `%envInt("` + k + `")%`}, Param{fmt.Sprintf("im%d", i), `<%envInt("` + k + `", 3)%>`},
+						Param{fmt.Sprintf("e%d", i), `%env("` + k + `")%`}, Param{fmt.Sprintf("em%d", i), `<%env("` + k + `", "d")%|%env("` + k + `")%>`})
+					cfg.Services = append(cfg.Services, Service{Name: fmt.Sprintf("s%d", i), Constructor: P("pk.New"), Args: []any{`%envInt("` + k + `")%`, `%env("` + k + `")%`}})
+					ops = append(ops, op("param", fmt.Sprintf("i%d", i)), op("param", fmt.Sprintf("im%d", i)), op("param", fmt.Sprintf("e%d", i)), op("param", fmt.Sprintf("em%d", i)), op("get", fmt.Sprintf("s%d", i)))
+					c.Distinct("all", "envval:"+v)
+					c.Distinct("nontrivial", "envval:"+v)
+				}
+				outs, err := w.RunBehaviour([]*BCase{{ID: c.ID, Cfg: cfg, Sessions: []BSession{{Env: env, Ops: ops}}}})
+				behaviourOracle(c, outs, err)
+			})
 		},
 	})
 }
